@@ -459,3 +459,5 @@ def shrink_candidates(case):
             c2[k] = dv
             out.append(",".join(c2) + "|" + " ".join(ops))
     return out
+
+TECHNIQUE += ' + translator tie: LinePrinter::reset / print_char_raw branches / tab rule (src/util.rs) and the row mapping of Draw::draw translated and proved equal to the model (Props/PrinterFnsTables.lean, CursorFnsTables.lean)'
